@@ -69,6 +69,38 @@ Theorem C02_refuted_D20_flood :
   last_time (run_transfer_case (d20_case false)) 0 = 1024%Z.
 Proof. vm_compute. repeat split; discriminate. Qed.
 
+(* ... and without limit: for the pre-fix variant a long enough burst keeps ONE try open beyond any bound,
+   whatever its deadline (handling time 1 tick, stale ACKs for block 7 while block 1 is outstanding) *)
+Definition late_cfg (tm : Z) : cfg :=
+  {| tmo := tm; retries := 0; wrap := Some 0%N; proc := 1;
+     v := {| retry_fallthrough := false; errcode_raises := false; late_recv := true |} |}.
+Lemma late_burst tm dl : forall n now, (0 <= now)%Z ->
+  exists l, await (late_cfg tm) 1%N now dl (repeat (Recv 0 client [0; 4; 0; 7]%N) n)
+            = (OTimeout, (now + Z.of_nat n + sock_timeout (now + Z.of_nat n) dl)%Z, [], l).
+Proof.
+  induction n as [|n IH]; intros now Hnow; cbn [repeat await];
+    change (late_recv (v (late_cfg tm))) with true; cbn [negb andb].
+  - replace (now + Z.of_nat 0)%Z with now by lia. eexists. reflexivity.
+  - assert (Hs : (1 <= sock_timeout now dl)%Z) by (unfold sock_timeout; destruct (Z.ltb_spec 0 (dl - now)); lia).
+    destruct (Z.ltb_spec 0 (now + sock_timeout now dl)); [|lia].
+    change (client =? client)%N with true. cbn [negb].
+    change (proc (late_cfg tm)) with 1%Z.
+    change (classify (v (late_cfg tm)) [0; 4; 0; 7]%N) with (CAck 7). change (7 =? 1)%N with false. cbv iota.
+    destruct (IH (Z.max now 0 + 1)%Z ltac:(lia)) as [l E].
+    rewrite E. replace (Z.max now 0 + 1 + Z.of_nat n)%Z with (now + Z.of_nat (S n))%Z by lia.
+    eexists. reflexivity.
+Qed.
+Theorem C02_refuted_D20_unbounded : forall tm dl bound, exists evs o n' e' l,
+  await (late_cfg tm) 1%N 0 dl evs = (o, n', e', l) /\ (bound < n')%Z.
+Proof.
+  intros tm dl bound. destruct (late_burst tm dl (Z.to_nat (Z.max 0 bound)) 0 ltac:(lia)) as [l E].
+  eexists _, _, _, _, _. split; [exact E|].
+  assert (1 <= sock_timeout (0 + Z.of_nat (Z.to_nat (Z.max 0 bound))) dl)%Z
+    by (unfold sock_timeout; destruct (Z.ltb_spec 0 (dl - (0 + Z.of_nat (Z.to_nat (Z.max 0 bound))))); lia).
+  lia.
+Qed.
+Print Assumptions C02_refuted_D20_unbounded.
+
 Example C02_nonvacuous :
   valid (C01.Props.ex_case) /\ List.length (run_transfer_case C01.Props.ex_case) = 13%nat.
 Proof. split; [repeat split; cbn; lia|vm_compute; reflexivity]. Qed.
